@@ -3,6 +3,7 @@
 mod c10;
 mod c10v;
 mod c11;
+mod c12;
 mod c13;
 mod env;
 
@@ -12,6 +13,7 @@ fn main() {
     match args.property.as_str() {
         "C10" => c10::run(args),
         "C11" => c11::run(args),
+        "C12" => c12::run(args),
         "C13" => c13::run(args),
         p => vcore::machinery_error(&format!("e2pure does not serve property {p}")),
     }
